@@ -26,6 +26,18 @@ _collection_resolver = AbstractTypeResolver(
 )
 
 
+def _detached(value):
+    """Return a plain copy of ``value`` if it is a synced collection.
+
+    Data handed to ``reset`` or ``update`` may contain nested children of the
+    very collection being modified. The in-place merge would then read values
+    it has already overwritten, so such arguments are snapshotted first.
+    """
+    if _sc_resolver.get_type(value) == "SYNCEDCOLLECTION":
+        return value._to_base()
+    return value
+
+
 class _LoadAndSave:
     """A context manager for :class:`SyncedCollection` to wrap saving and loading.
 
